@@ -13,7 +13,11 @@ def check(model, R, tier):
     ops, problems = opcat.catalogue(model)
     for q, why in problems:
         R.incomplete_at('C07.PROP', q, why)
-    T.check_prop_attach(model, R, ops, 'C07')
+    from sa.rules_flags import check_flags
+    r1 = check_flags(model, R, 'C07', 'synapgrad.functional', rules=('PROP', 'ATTACH'), declare=False)
+    r2 = check_flags(model, R, 'C07', 'synapgrad.nn.functional', rules=('PROP', 'ATTACH'), declare=False)
+    R.rule('C07.PROP', 'over every valuation of the operands\' requires_grad flags (and presence of optional operands): result.requires_grad = OR of the children\'s flags, and every flagged operand is a child (partial evaluation)', floor=48)
+    R.rule('C07.ATTACH', 'over every valuation: grad_fn (a BackwardFunction around a closure of the wrapper) is stored on the result iff the result requires grad (partial evaluation)', floor=48)
     check_ctor(model, R)
     check_guards(model, R)
     check_ctx(model, R, 'no_grad', 'gradient__', False)
